@@ -88,6 +88,25 @@ def chunkings(noise: bytes, suf: bytes, full_bytewise: bool):
 
 
 def replay(case: dict) -> list[str]:
+    if case["reader"] == "hdlc_sweep":
+        cfg = tuple(case["cfg"])
+        pool = X.frame_pool()
+        fr = bytes.fromhex(case["frame"])
+        lead = [] if cfg[0] else [_flagfree_frame(991, s_) for s_ in range(3)]
+        frames = lead + [pool["short"] if cfg[0] else _flagfree_frame(5, 1), fr, pool["hdr_only"] if cfg[0] else _flagfree_frame(0, 2)]
+        out = bytearray()
+        offs = []
+        for i, f in enumerate(frames):
+            if case["shared"] and i > 0:
+                offs.append((len(out) - 1, f))
+            else:
+                offs.append((len(out), f))
+                out += b"\x7e"
+            out += RH.wire(f, cfg[0])
+            out += b"\x7e"
+        noise = bytes.fromhex(case["noise"])
+        chunks = dict(chunkings(noise, bytes(out), True))[case["how"]]
+        return hdlc_resync_errors(cfg, noise, bytes(out), required(cfg, offs), chunks)
     if case["reader"] == "hdlc":
         cfg = tuple(case["cfg"])
         noise = bytes.fromhex(case["noise"])
@@ -178,6 +197,50 @@ def _work_h_struct(task) -> core.Part:
     return p
 
 
+def _work_h_sweep(task) -> core.Part:
+    """Suffix frames drawn from the FCS/HCS-octet sweep (every octet value in every check-sequence position), after a few
+    representative noises: value-dependent treatment of check-sequence octets must not cost a second frame."""
+    cfg, lo, hi = task
+    p = core.Part()
+    pool = X.frame_pool()
+    noises = [b"", bytes.fromhex("7e017d"), bytes.fromhex("7ea0"), bytes.fromhex("7e7d"), b"\x7e" + RH.wire(pool["short"], cfg[0])[:9]]
+    lead = [] if cfg[0] else [_flagfree_frame(991, s_) for s_ in range(3)]
+    for label, fr in X.fcs_sweep_frames()[lo:hi]:
+        if not cfg[0] and (RH.FLAG in fr or (cfg[1] and (RH.ESC in fr))):
+            continue  # the no-stuffing guarantee is for flag-free frames
+        frames = lead + [pool["short"] if cfg[0] else _flagfree_frame(5, 1), fr, pool["hdr_only"] if cfg[0] else _flagfree_frame(0, 2)]
+        for shared in (False, True):
+            out = bytearray()
+            offs = []
+            for i, f in enumerate(frames):
+                if shared and i > 0:
+                    offs.append((len(out) - 1, f))
+                else:
+                    offs.append((len(out), f))
+                    out += b"\x7e"
+                out += RH.wire(f, cfg[0])
+                out += b"\x7e"
+            suf = bytes(out)
+            need = required(cfg, offs)
+            for noise in noises:
+                for how, chunks in chunkings(noise, suf, cfg[0]):
+                    if not cfg[0] and how.startswith("cut") and how != "cut+0":
+                        continue
+                    errs = hdlc_resync_errors(cfg, noise, suf, need, chunks)
+                    p.add("executions")
+                    p.add("events", len(chunks))
+                    p.out("resynchronised" if not errs else "lost_frames")
+                    if errs:
+                        kind = "resync_shared_flag" if shared else "resync"
+                        p.viol(kind, f"{kind}:{X.cfg_name(cfg)}:{noise.hex()}:{label}:{how}", f"suffix [short, {label} {fr.hex()}, hdr_only] shared_flags={shared} {how}: {errs[0]}",
+                               {"reader": "hdlc_sweep", "cfg": list(cfg), "noise": noise.hex(), "frame": fr.hex(), "shared": shared, "how": how}, size=len(noise))
+        p.add("nontrivial")
+        if p.full("resync") or p.full("resync_shared_flag"):
+            p.capped = True
+            break
+    return p
+
+
 # ---- P1 --------------------------------------------------------------------------------------------------------
 _P1S = None
 
@@ -205,7 +268,8 @@ def _p1_chunks(S, b, how):
     if how == "bytewise":
         return X.bytewise(S)
     if how.startswith("fixed"):
-        return X.fixed(S, int(how[5:]))
+        k = int(how[5:])
+        return X.fixed(S[:b], k) + [S[b:]] if b > 4000 else X.fixed(S, k)
     d = int(how[3:])
     return [S[:b + d], S[b + d:]]
 
@@ -262,6 +326,46 @@ def _work_p_struct(task) -> core.Part:
     return p
 
 
+def long_noises(reader: str, quick: bool):
+    """Noise built by repeating a 1..2-token cycle of the C19 pattern alphabets until several KiB are fed: reaches the
+    readers' overflow guards and counters (states that short noise cannot reach)."""
+    from mc.props import C19
+
+    toks = C19.p_tokens() if reader == "p1" else C19.h_tokens()
+    names = list(toks)
+    pres = [(), ("ident",)] if reader == "p1" else [(), ("flag",), ("trunc",)]
+    if not quick:
+        pres = [()] + [(t,) for t in names]
+    totals = (8300, 20000) if reader == "p1" else (2100, 5000)
+    for pre in pres:
+        for n in (1, 2):
+            for cyc in itertools.product(names, repeat=n):
+                unit = b"".join(toks[t] for t in cyc)
+                if len(unit) > 3000:
+                    continue
+                for total in totals:
+                    reps = -(-total // len(unit))
+                    yield f"{'+'.join(pre)}|({'+'.join(cyc)})x{reps}", b"".join(toks[t] for t in pre) + unit * reps
+
+
+def _work_long_noise(task) -> core.Part:
+    reader, quick, lo, step = task
+    p = core.Part()
+    for idx, (label, noise) in enumerate(long_noises(reader, quick)):
+        if idx % step != lo:
+            continue
+        p.add("nontrivial")
+        if reader == "p1":
+            _prun(p, noise, label, ("oneshot", "fixed7", "fixed1000", "cut+0", "fixed64"))
+        else:
+            for cfg in X.CFGS:
+                _hrun(p, cfg, noise, label, ks=(4,), shared_forms=(False,), full_bytewise=False)
+        if p.full("resync") or p.full("resync_p1"):
+            p.capped = True
+            break
+    return p
+
+
 def main(run: core.Run) -> int:
     q = run.quick
     run.rule = ("noise prefix (every string/token sequence up to the bound; every truncation of every pool message with 7D/7E/7D7E appended; announced-length headers; "
@@ -295,17 +399,22 @@ def main(run: core.Run) -> int:
         st += [(cfg, lo, lo + 40) for lo in range(0, n, 40)]
     run.log(f"HDLC structured noise: {len(st)} partitions")
     run.merge(par.pmap(_work_h_struct, st, seed=run.seed))
+    nsw = len(X.fcs_sweep_frames())
+    run.log(f"HDLC check-sequence octet sweep: {nsw} suffix frames")
+    run.merge(par.pmap(_work_h_sweep, [(cfg, lo, lo + 43) for cfg in X.CFGS for lo in range(0, nsw, 43)], seed=run.seed))
     NPT = 3 if q else 4
     pt = [((), 1)] + [((a,), NPT if NPT == 1 else 1) for a in P_TOKN] + [((a, b), NPT) for a in P_TOKN for b in P_TOKN]
     run.log(f"P1 token noise <= {NPT}: {len(pt)} partitions")
     run.merge(par.pmap(_work_p_tokens, pt, seed=run.seed))
     npn = sum(len(r) for r in P.readout_pool().values()) + 5
     run.merge(par.pmap(_work_p_struct, [(lo, lo + 25) for lo in range(0, npn, 25)], seed=run.seed))
+    run.log("long periodic noise (several KiB) then clean suffix")
+    run.merge(par.pmap(_work_long_noise, [(rd, q, i, 32) for rd in ("p1", "hdlc") for i in range(32)], seed=run.seed))
     tot = run.total
     tot.sample({"cfg": "stuffing=1,abort=0", "noise": "7e a0 7d", "suffix": "4 clean frames, each 7e F 7e", "required": "frames 2..4 valid, in order"})
     tot.sample({"reader": "P1", "noise": "/ABC5x\\r\\n1-0:1.8.0", "suffix": "4 clean readouts", "required": "readouts 2..4"})
     run.bounds = {"hdlc_octets": f"Sigma_h+^<={NQ[True][0]} (stuffing), Sigma_h^<={NQ[False][0]} (no stuffing)", "hdlc_tokens": f"<={NQ[True][1]} tokens",
-                  "p1_tokens": f"<={NPT} tokens", "structured": "every truncation of 8 frames / 8 readouts (+7D, 7E, 7D7E), headers announcing 7/10/50/2047, 1-edit frames, 3000 B flag-free, 4000-9000 B data lines, 5000 B without LF"}
+                  "p1_tokens": f"<={NPT} tokens", "long_noise": "prefix x (cycle of 1..2 pattern tokens) repeated to 8.3/20 KiB (P1) or 2.1/5 KiB (HDLC), 5 chunkings", "structured": "every truncation of 8 frames / 8 readouts (+7D, 7E, 7D7E), headers announcing 7/10/50/2047, 1-edit frames, 3000 B flag-free, 4000-9000 B data lines, 5000 B without LF"}
     run.assumptions = ["suffix messages are delimited as on a real line: own opening and closing flag per frame (shared single flag form checked and reported separately), readouts back to back",
                        "no stuffing: a suffix frame is required once it starts more than 2047 + its own length after the noise"]
     ex = tot.c.get("executions", 0)
